@@ -30,8 +30,9 @@ def tykey(t):
 class Case:
     """one generated case = one module"""
 
-    def __init__(self, rnd, cid, feat):
+    def __init__(self, rnd, cid, feat, layout=None):
         self.r = rnd; self.id = cid; self.feat = feat
+        self.layout = layout     # "layout" family: the index selects trap kind and the amount of non-trapping filler
         self.lines = []          # source lines of the module body (without the module header)
         self.structs = []; self.classes = []; self.enums = []; self.globals = []; self.fns = []
         self.lam = 0; self.var = 0
@@ -331,6 +332,19 @@ class Case:
         env[nm] = ["lam", pt, rt]
         return {"k": "lamlet", "n": nm, "params": [[p, t] for p, t in zip(params, pt)], "ret": rt, "body": stm, "res": res}
 
+    def filler(self, t, n, prefix):
+        """n statements over the parameter x that cannot trap (wrapping arithmetic with small / large immediates)"""
+        r = self.r
+        out = []; prev = "x"
+        for j in range(n):
+            nm = f"{prefix}{j}"
+            # values stay small (exactly representable in the spec): +/- small literals or x, times 1
+            op = r.choice(["wrapping_add", "wrapping_sub", "wrapping_add", "wrapping_sub", "wrapping_mul"])
+            rhs = {"k": "lit", "ty": t, "c": 0, "o": 1} if op == "wrapping_mul" else r.choice([{"k": "lit", "ty": t, "c": 0, "o": r.choice([1, 3, 100, 500])}, {"k": "var", "n": "x", "ty": t}])
+            out.append({"k": "let", "n": nm, "ty": t, "e": {"k": "wrap", "op": op, "l": {"k": "var", "n": prev, "ty": t}, "r": rhs, "ty": t}})
+            prev = nm
+        return out
+
     # ---------- declarations ----------
     def build(self):
         r = self.r
@@ -380,6 +394,15 @@ class Case:
             t = r.choice(INT)
             depth = r.randint(1, 4)
             kind = r.choice(["div0", "ovf", "oob", "assert", "shift", "none"])
+            fill0 = fillc = 0
+            if self.layout is not None:
+                # code-layout sweep: same failing operation, 0.. filler statements that cannot trap, so that the
+                # functions' code sizes (and the position of the out-of-line trap call) sweep all alignments
+                kinds = ["div0", "ovf", "oob", "assert", "shift"]
+                kind = kinds[self.layout % len(kinds)]
+                fill0 = self.layout // len(kinds)
+                fillc = (self.layout * 7) % 5
+                depth = 1 + self.layout % 2
             x = {"k": "var", "n": "x", "ty": t}
             one = {"k": "lit", "ty": t, "c": 0, "o": 1}
             if kind == "div0": op = {"k": "bin", "op": r.choice(["/", "%"]), "l": {"k": "lit", "ty": t, "c": 0, "o": 100}, "r": x, "ty": t}; arg = 0
@@ -391,10 +414,11 @@ class Case:
             if kind == "oob":
                 body0.append({"k": "leta", "n": "cha", "ety": t, "len": 2, "e": one})
                 op = {"k": "index", "a": "cha", "i": {"k": "conv", "from": t, "e": x, "ty": "i64"} if t == "i32" else x, "ty": t}
+            body0 = self.filler(t, fill0, "w") + body0
             self.fns.append({"n": "ch0", "params": [["x", t]], "ret": t, "body": body0, "res": op, "callable": False})
             for i in range(1, depth + 1):
                 self.fns.append({"n": f"ch{i}", "params": [["x", t]], "ret": t, "callable": False,
-                                 "body": [{"k": "print", "es": [{"k": "lit", "ty": "i32", "c": 0, "o": i}], "nl": r.random() < 0.6 or "print_nonl" not in self.feat}] if r.random() < 0.7 else [],
+                                 "body": self.filler(t, fillc, f"u{i}_") + ([{"k": "print", "es": [{"k": "lit", "ty": "i32", "c": 0, "o": i}], "nl": r.random() < 0.6 or "print_nonl" not in self.feat}] if r.random() < 0.7 else []),
                                  "res": {"k": "bin", "op": "+", "l": {"k": "call", "fn": f"ch{i-1}", "args": [x], "ty": t}, "r": {"k": "lit", "ty": t, "c": 0, "o": 0}, "ty": t}})
             self.chain = {"fn": f"ch{depth}", "ty": t, "arg": arg}
         # run body
@@ -583,7 +607,9 @@ def generate_cases(seed, n, features=None):
     cases = []
     for i in range(n):
         feat = set(features if features is not None else [f for f in ALL_FEATURES if rnd.random() < 0.6])
-        cases.append(Case(rnd, f"c{i}", feat).build())
+        lay = i if "layout" in feat else None
+        feat.discard("layout")
+        cases.append(Case(rnd, f"c{i}", feat, layout=lay).build())
     return cases
 
 
